@@ -344,7 +344,12 @@ def check_convert_value(val: str, char: Characteristic) -> Any:
         try:
             val = strtobool(str(val))
         except ValueError:
-            raise FormatError(f'"{val}" is no valid "{char.format}"!')
+            try:
+                shown = str(val)
+            except ValueError:
+                # an int with more than sys.get_int_max_str_digits() digits cannot even be printed
+                shown = f"int of {val.bit_length()} bits"
+            raise FormatError(f'"{shown}" is no valid "{char.format}"!')
 
         # We have seen iPhone's sending 1 and 0 for True and False
         # This is in spec
